@@ -97,7 +97,7 @@ fn geometries() -> Vec<GeoDeg> {
 
 fn base_grid_checks(rep: &Report, outcomes: &Mutex<HashSet<u64>>) {
     let geos = geometries();
-    let layouts = [TextLayout::RowPerLine, TextLayout::OneValuePerLine, TextLayout::WithComments, TextLayout::Crlf, TextLayout::TabsAndBlankLines];
+    let layouts = [TextLayout::RowPerLine, TextLayout::OneValuePerLine, TextLayout::WithComments, TextLayout::Crlf, TextLayout::TabsAndBlankLines, TextLayout::GluedComments];
     let jobs: Vec<(usize, usize)> = (0..geos.len()).flat_map(|g| (1..=3usize).map(move |b| (g, b))).collect();
     par_range(jobs.len(), |j| {
         let (gi, bands) = jobs[j];
